@@ -345,4 +345,136 @@ theorem seeded_det {α β} (f : α → β) (sd lsd : Seed) (xs : List α) :
 theorem seed_int_congr (a b : Int) (h : a % (C05.M : Int) = b % (C05.M : Int)) :
     Seed.norm (.int a) = Seed.norm (.int b) := seed_int_congr' a b h
 
+/-! # Phase 3 -/
+
+/-! ### BatchSafe on any sequence of batches (even or not), the falsy first batch -/
+
+/-- whatever the batch boundaries of the input: if the first batch is non-empty, `BatchSafe(G)` is
+`Batch(size of the FIRST batch) ∘ F ∘ Unbatch` (`G` = the inner filter, `F` what it does on
+un-batched interactions) -/
+theorem batchsafe_first_batch_size {V} (G : List (Batched V) → Except Err (List (Batched V)))
+    (F : List (Rec V) → Except Err (List (Rec V))) (hG : agreesOnPlain G F)
+    (k : String) (vs : List V) (cols : List (String × List V)) (rest : List (Batched V)) (hvs : vs ≠ []) :
+    batchSafe G (.batch ((k, vs) :: cols) :: rest)
+      = (match F (unbatchF (.batch ((k, vs) :: cols) :: rest)) with
+         | .error e => .error e
+         | .ok ys => batchF vs.length ys) := batchSafe_first_batch' G F hG k vs cols rest hvs
+
+/-- `unbatch (BatchSafe(F) batches) = F (unbatch batches)` whenever `F`'s output is of one kind
+(one key set) — any batch boundaries in the input -/
+theorem batchsafe_unbatch {V} (G : List (Batched V) → Except Err (List (Batched V)))
+    (F : List (Rec V) → Except Err (List (Rec V))) (hG : agreesOnPlain G F)
+    (k : String) (vs : List V) (cols : List (String × List V)) (rest : List (Batched V)) (hvs : vs ≠ [])
+    (ys : List (Rec V)) (hF : F (unbatchF (.batch ((k, vs) :: cols) :: rest)) = .ok ys)
+    (ks : List String) (hne : ks ≠ []) (hu : uniformKeys ks ys) :
+    ∃ out, batchSafe G (.batch ((k, vs) :: cols) :: rest) = .ok out ∧ unbatchF out = ys :=
+  batchSafe_unbatch' G F hG k vs cols rest hvs ys hF ks hne hu
+
+/-- in particular for the selection / ordering filters (output made of input interactions):
+`unbatch (BatchSafe(F) (Batch(k) xs)) = F xs` -/
+theorem batchsafe_selection {V} (G : List (Batched V) → Except Err (List (Batched V)))
+    (F : List (Rec V) → Except Err (List (Rec V))) (hG : agreesOnPlain G F)
+    (size : Nat) (hs : 0 < size) (ks : List String) (hne : ks ≠ []) (recs : List (Rec V)) (hr : recs ≠ [])
+    (hu : uniformKeys ks recs) (bs : List (Batched V)) (hb : batchF size recs = .ok bs)
+    (ys : List (Rec V)) (hF : F recs = .ok ys) (hsel : ∀ y ∈ ys, y ∈ recs) :
+    ∃ out, batchSafe G bs = .ok out ∧ unbatchF out = ys :=
+  batchSafe_selection' G F hG size hs ks hne recs hr hu bs hb ys hF hsel
+
+/-- the hypotheses are satisfiable: `Take(1)` on two batches of two -/
+example : ∃ out, batchSafe (liftF (fun recs : List (Rec Nat) => .ok (recs.take 1)))
+    [.batch [("a", [1, 2])], .batch [("a", [3, 4])]] = .ok out ∧ unbatchF out = [[("a", 1)]] :=
+  batchsafe_selection _ _ (liftF_agrees _) 2 (by decide) ["a"] (by decide)
+    [[("a", 1)], [("a", 2)], [("a", 3)], [("a", 4)]] (by decide) ⟨by decide, by decide⟩ _ rfl _ rfl (by decide)
+
+/-- the quirk: a first interaction that is not batched or whose first value is an EMPTY batch makes
+`batch_size` falsy — the inner filter is applied to the interactions as they are -/
+theorem batchsafe_falsy_first {V} (G : List (Batched V) → Except Err (List (Batched V)))
+    (first : Batched V) (rest : List (Batched V)) (h : firstBatchSize first = 0) :
+    batchSafe G (first :: rest) = G (first :: rest) := batchSafe_falsy_first' G first rest h
+
+/-- …so with an empty first batch `Take(1)` takes one *batch* (the empty one): the un-batched result
+is empty although `Take(1)` of the three interactions is not -/
+theorem batchsafe_empty_first_batch_counterexample :
+    batchSafe (fun xs : List (Batched Nat) => .ok (xs.take 1)) [emptyBatch ["a"], .batch [("a", [1, 2, 3])]]
+      = .ok [emptyBatch ["a"]] ∧
+    unbatchF [(emptyBatch ["a"] : Batched Nat)] = [] ∧
+    (unbatchF [(emptyBatch ["a"] : Batched Nat), .batch [("a", [1, 2, 3])]]).take 1 = [[("a", 1)]] := ⟨rfl, rfl, rfl⟩
+
+/-- uneven batches are regrouped by the size of the first one (C04-F7): `BatchSafe(Identity)` turns
+batches of 2 and 5 into 2, 2, 2, 1 — same interactions, other boundaries -/
+theorem batchsafe_uneven_regroups_counterexample :
+    batchSafe (fun xs : List (Batched Nat) => .ok xs) [.batch [("a", [1, 2])], .batch [("a", [3, 4, 5, 6, 7])]]
+      = .ok [.batch [("a", [1, 2])], .batch [("a", [3, 4])], .batch [("a", [5, 6])], .batch [("a", [7])]] := rfl
+
+/-! ### Several filters per shortcut: environments × filters -/
+
+/-- `Environments.filter([f_0 … f_{m-1}])` on `n` environments: member `i*m + j` is environment `i`
+behind filter `j` (the order the code produces) -/
+theorem product_member_order (nEnv nFilt i j : Nat) (hi : i < nEnv) (hj : j < nFilt) :
+    (productMembers nEnv nFilt)[i * nFilt + j]? = some (i, j) := productMembers_get' nEnv nFilt i j hi hj
+
+/-- `shuffle(seeds=…)` re-orders the members by seed, stably: the same members, ascending seeds,
+members of equal seed in environment order -/
+theorem shuffle_member_order (seedOf : Nat → Nat) (nEnv nFilt : Nat) :
+    (sortedMembers seedOf nEnv nFilt).Perm (productMembers nEnv nFilt) ∧
+    (sortedMembers seedOf nEnv nFilt).Pairwise (fun a b => seedOf a.2 ≤ seedOf b.2) ∧
+    (∀ a b, seedOf a.2 ≤ seedOf b.2 → [a, b].Sublist (productMembers nEnv nFilt) →
+      [a, b].Sublist (sortedMembers seedOf nEnv nFilt)) := sortedMembers_spec' seedOf nEnv nFilt
+
+/-- in any history of reads of the members, member `m = (i, j)` delivers filter `j` applied to
+environment `i` alone (its first `k` interactions when the read is abandoned after `k`) -/
+theorem collection_product {E Φ α} (apply : Φ → E → Except Err (List α)) (envs : Nat → E) (filters : Nat → Φ)
+    (members : List (Nat × Nat)) (dflt : Nat × Nat) (h : List (Nat × Option Nat)) (m i j : Nat)
+    (hm : members[m]? = some (i, j)) :
+    ((runColl (statelessFilt (fun p : E × Φ => apply p.2 p.1)) (memberEnv envs filters members dflt) (fun _ => ()) h).filter (·.1 = m)).map (·.2)
+      = ((h.filter (·.1 = m)).map (·.2)).map (fun c => match c with
+          | none => apply (filters j) (envs i)
+          | some k => match apply (filters j) (envs i) with | .ok l => .ok (l.take k) | .error e => .error e) :=
+  collection_product' apply envs filters members dflt h m i j hm
+
+example : (productMembers 2 3)[1 * 3 + 2]? = some (1, 2) := product_member_order 2 3 1 2 (by decide) (by decide)
+example : sortedMembers (fun j => [5, 1, 5].getD j 0) 2 3 = [(0, 1), (1, 1), (0, 0), (0, 2), (1, 0), (1, 2)] := by decide
+
+/-! ### Unbatch on arbitrary input -/
+
+/-- nothing batched in the first interaction: everything is passed through untouched (also batches
+that come later) -/
+theorem unbatch_plain_first (first : CRec) (rest : List CRec)
+    (h : first.find? (fun kv => kv.2.isBatch) = none) : unbatchG (first :: rest) = .ok (first :: rest) :=
+  unbatchG_plain_first' first rest h
+
+/- full statement (no hypothesis on the interactions):
+   theorem unbatch_rows_full : unbatchG rs = .ok (rs.flatMap rows)   -- kept, ordered, row by row
+   is false for mixed sequences: see the three counterexamples below. -/
+/-- every interaction fully batched (all cells columns of one length, each interaction its own
+size) and carrying the first batched key of the first: Unbatch delivers, interaction by interaction
+and in order, the rows of the transposition -/
+theorem unbatch_rows_partial (first : CRec) (rest : List CRec) (size : CRec → Nat) (bk : String) (c0 : Cell)
+    (hfirst : first.find? (fun kv => kv.2.isBatch) = some (bk, c0))
+    (h : ∀ r ∈ first :: rest, wfBatch r (size r) ∧ ∃ c, lookupCell bk r = some c) :
+    unbatchG (first :: rest) = .ok ((first :: rest).flatMap (fun r => rowsSpec r (size r))) :=
+  unbatchG_wf' first rest size bk c0 hfirst h
+
+example : unbatchG [[("c", .col [.atom 1, .atom 2]), ("r", .col [.atom 5, .atom 6])], [("c", .col [.atom 3]), ("r", .col [.atom 7])]]
+    = .ok [[("c", .val (.atom 1)), ("r", .val (.atom 5))], [("c", .val (.atom 2)), ("r", .val (.atom 6))], [("c", .val (.atom 3)), ("r", .val (.atom 7))]] := rfl
+
+/-- excluded input 1: an un-batched interaction after a batched first one whose value under the
+batched key is a sequence is cut into one "interaction" per element (and a sequence-valued cell
+of a batched interaction is indexed too: `'xy'` becomes `'x'`, `'y'`) -/
+theorem unbatch_mixed_counterexample :
+    unbatchG [[("c", .col [.atom 1, .atom 2]), ("n", .val (.seq [.atom 7, .atom 8]))],
+              [("c", .val (.seq [.atom 3, .atom 4, .atom 5])), ("n", .val (.atom 9))]]
+      = .ok [[("c", .val (.atom 1)), ("n", .val (.atom 7))], [("c", .val (.atom 2)), ("n", .val (.atom 8))],
+             [("c", .val (.atom 3)), ("n", .val (.atom 9))], [("c", .val (.atom 4)), ("n", .val (.atom 9))],
+             [("c", .val (.atom 5)), ("n", .val (.atom 9))]] := rfl
+
+/-- excluded input 2: …and raises `TypeError` when that value is a number (`len` is outside the `try`) -/
+theorem unbatch_mixed_counterexample2 :
+    unbatchG [[("c", .col [.atom 1])], [("c", .val (.atom 3))]] = .error .typeError := rfl
+
+/-- excluded input 3: a batch after an un-batched first interaction is not unbatched at all -/
+theorem unbatch_mixed_counterexample3 :
+    unbatchG [[("c", .val (.atom 1))], [("c", .col [.atom 3, .atom 4])]]
+      = .ok [[("c", .val (.atom 1))], [("c", .col [.atom 3, .atom 4])]] := rfl
+
 end Coba.C09
